@@ -164,12 +164,15 @@ Proof.
   intros [p c v k]. unfold state_eqb; cbn. rewrite !list_eqb_refl, Nat.eqb_refl. reflexivity.
 Qed.
 
-(* hash key: mixed-radix number of all components (injective while all values are < 64; soundness
-   never depends on that: a collision can only make [check_closed] fail) *)
-Definition key_list (l : list nat) (acc : N) : N :=
-  fold_left (fun a x => (a * 64 + N.of_nat x)%N) l acc.
+(* hash key: every component in unary (x ones, then a zero), pushed onto one positive number: a
+   prefix code, so different states of the same shape get different keys.  Soundness never depends
+   on that: a collision could only make [check_closed] fail. *)
+Fixpoint push_nat (x : nat) (p : positive) : positive :=
+  match x with 0 => xO p | S k => xI (push_nat k p) end.
+Definition key_list (l : list nat) (acc : positive) : positive :=
+  fold_left (fun a x => push_nat x a) l acc.
 Definition key (s : state) : positive :=
-  N.succ_pos (key_list [panic s] (key_list (vars s) (key_list (closed s) (key_list (pcs s) 1%N)))).
+  push_nat (panic s) (key_list (vars s) (key_list (closed s) (key_list (pcs s) xH))).
 
 Definition sset := PositiveMap.t state.
 Definition sempty : sset := PositiveMap.empty state.
